@@ -186,6 +186,35 @@ def run(ctx):
     ctx.cover(len(cases), nontriv, [{k: cases[0][k] for k in ('arch', 'conn', 'label', 'kind', 'phase')}],
               'for each transcript archetype (ed25519, RSA, certificates, GEX, GEX-first) every (connection, message, fault) triple: close, stall, truncation, garbage, packet length field, inner length field, wrong type, zero payload, bit flips, bad block size; plus 1-byte segmentation, debug messages in probes, pre-banner lines; -t 1; non-trivial = distinct (archetype, phase, message, fault, status, report shown)')
 
+    # ---- odd but well-formed identification strings: the software/version part is peer-controlled text that the report pipeline parses
+    # (product recognition, version comparison for recommendations and compatibility); a well-formed handshake always gets its report ----
+    odd = []
+    for prod in ('OpenSSH_', 'OpenSSH-', 'dropbear_', 'libssh_', 'libssh-', 'PuTTY_Release_', 'tinyssh_', 'RomSShell_', 'Cisco-', 'mpSSH_', 'lancom', 'Weird_'):
+        for ver in ('8..9', '8.9.', '.8.9', '8', '8.', '0', '00.00', '9' * 40, '8.9p', '8.9p0', '8.9p1p2', '8.9-', '8.9..p1', '1e3', '8.9 .1', '\u0663.4', '8.9\t', '-1.0', '', '2020..81', '0.9..6', 'v8.9', '8,9'):
+            odd.append('SSH-2.0-%s%s' % (prod, ver))
+    odd += ['SSH-2.0-', 'SSH-2.0--', 'SSH-2.0-OpenSSH', 'SSH-2.0-OpenSSH_', 'SSH-1.99-OpenSSH_8..9', 'SSH-2.0-OpenSSH_8.9 ' + 'c' * 300, 'SSH-2.0-OpenSSH_7.4p1 Debian-10+deb9u7..', 'SSH-2.0-dropbear', 'SSH-2.0-libssh']
+    if q:
+        odd = rng.sample(odd, 60) + ['SSH-2.0-OpenSSH_8..9', 'SSH-2.0-dropbear_2020..81', 'SSH-2.0-libssh_0.9..6']
+
+    def do_odd(z, b):
+        srv = P.new_ssh2_server(dict(banner=b.encode('utf-8'), kex=['curve25519-sha256'], key=['ssh-ed25519', 'rsa-sha2-512'], enc=['aes256-ctr', 'aes128-cbc'], mac=['hmac-sha2-256', 'hmac-sha1'],
+                                     hostkeys={b'ssh-ed25519': P.ed25519_blob()}), stall_limit=3.0)
+        try:
+            return [z.run(o + ['--skip-rate-test', '-t', str(TIMEOUT), '127.0.0.1:%d' % srv.port], timeout=60) for o in (['-n'], ['-j'])]
+        finally:
+            srv.shutdown()
+    with runner.Pool() as pool:
+        ores = pool.map(do_odd, odd)
+    ctx.evaluations += 2 * len(odd)
+    for b, rs in zip(odd, ores):
+        for o, r in zip(('text', 'json'), rs):
+            d = {'op': 'cli-odd-banner', 'banner': b, 'view': o}
+            ok_rep = has_report(r['out']) if o == 'text' else ('"kex"' in r['out'])
+            nontriv.add(('odd-banner', b.split('-')[2][:8] if b.count('-') >= 2 else '', r['rc']))
+            if r['timed_out'] or r['rc'] not in (0, 2, 3) or not ok_rep:
+                m = re.findall(r'(\w+(?:Error|Exception)[^\n]*)', r['out'] + r['err'])
+                ctx.violation('odd-banner/%s' % (m[-1].split(':')[0] if m else 'status%s' % r['rc']), 'identification string %r followed by a well-formed KEXINIT: exit status %r, report shown: %r: %s' % (
+                    b, r['rc'], ok_rep, (r['out'] + r['err'])[-200:]), d)
     # ---- correspondence of the handshake model: banner then packet bytes with faults, vs classify(read_packet) ----
     hs_cases = []
     base = P.kexinit(['curve25519-sha256'], ['ssh-ed25519'], ['aes128-ctr'], ['hmac-sha2-256'])
